@@ -23,6 +23,12 @@ class P(vlib.Prop):
                      "^TestVerifC06Graph$", "graph"),
         vlib.Harness("router", "connector", ".", {"zz_verif_c06_test.go": "C06/router_test.go"},
                      "^TestVerifC06Router$", "connector"),
+        vlib.Harness("built_consumer", "consumer", ".", {"zz_verif_c06_test.go": "C06/built_consumer_test.go"},
+                     "^TestVerifC06BuiltConsumer$", "consumer"),
+        vlib.Harness("built_processor", "processor/processorhelper", ".", {"zz_verif_c06_test.go": "C06/built_processor_test.go"},
+                     "^TestVerifC06BuiltProcessor$", "processorhelper"),
+        vlib.Harness("built_exporter", "exporter", "./exporterhelper/", {"zz_verif_c06_test.go": "C06/built_exporter_test.go"},
+                     "^TestVerifC06BuiltExporter$", "exporterhelper"),
         vlib.Harness("xrouter", "connector/xconnector", ".", {"zz_verif_c06_test.go": "/verif/work/C06/xrouter_test.go"},
                      "^TestVerifC06XRouter$", "xconnector"),
     ]
@@ -42,6 +48,8 @@ class P(vlib.Prop):
             "consumer tree with every component's arrival (cell, read-only, markers) and final markers compared with TreeModel.v. "
             "router: connector.NewXRouter over 1..3 pipelines (every capability vector, every selection of length 1..3, "
             "repetitions included) and random larger ones: capability of Consumer(ids...) and of the router, invocation order. "
+            "built_*: consumer.NewX / processorhelper.NewX / exporterhelper.NewX with every list of 0..4 (0..3) WithCapabilities options, "
+            "exporters with batching off / batcher / queue batch: advertised MutatesData; all fan-out consumers are built from multi-option lists. "
             "xrouter: the same router cases for xconnector.NewProfilesRouter. Every case is checked twice: against the model and by the "
             "decidable clause checker Clauses.prop_ok over the observed behaviour alone. "
             "A fan-out case is non-trivial when it has >= 2 consumers or a mutating one; a graph case when the "
@@ -49,6 +57,7 @@ class P(vlib.Prop):
             "distinct = distinct case terms.")
     trusted_base = [
         "Coq 8.16.1 kernel + vm_compute (coqc); no axioms (Print Assumptions: closed under the global context)",
+        "consumer.NewX / WithCapabilities / processorhelper / exporterhelper option plumbing: hand model base_cap / proc_cap / exp_cap, tied by the built_* harnesses",
         "translator T1 (tools/go2coq): xConsumer.Capabilities x4, capabilityconsumer wrapper method sets",
         "hand-written model coq/C06/Model.v + TreeModel.v of NewX / Capabilities / ConsumeX, tied to each of the four Go files by its own correspondence function",
         "the harness's abstraction of a payload to the list of its top-level entry markers (the direct oracle compares full protobuf encodings instead)",
@@ -80,7 +89,7 @@ class P(vlib.Prop):
                "mutating-consumer-gets-private-mutable-data", "consumer-observes-only-its-own-writes",
                "fanout-capability-exact", "declared-mutator-never-panics", "caller-context-passed-through",
                "payload-fresh-in-every-delivery"]
-    OTHER = {"CPipe": ["pipeline-capability-exact"], "CTree": ["receiver-fanout-capability-exact", "pipeline-capability-exact"],
+    OTHER = {"CBuilt": ["built-consumer-advertises-its-last-capability-option"], "CPipe": ["pipeline-capability-exact"], "CTree": ["receiver-fanout-capability-exact", "pipeline-capability-exact"],
              "CGraph": ["component-sees-exactly-its-upstream-mutations"], "CRouter": ["router-fanout-clauses"]}
 
     def clause_name(self, term, k):
